@@ -9,6 +9,7 @@ from collections import deque
 from typing import TYPE_CHECKING
 from typing import Deque
 from typing import Iterable
+from typing import List
 from typing import Tuple
 
 from .exceptions import JSONPathRecursionError
@@ -108,45 +109,23 @@ class JSONPathRecursiveDescentSegment(JSONPathSegment):
         for _ in self._visit(root, depth):
             pass
 
-        # (node, depth) tuples
-        queue: Deque[Tuple[JSONPathNode, int]] = deque()
-
         # Visit the root node
         yield root
 
-        # Queue root's children
-        queue.extend([(child, depth) for child in _nondeterministic_children(root)])
+        # Runs of sibling nodes waiting to be visited. Any node at the head of
+        # a run can be visited next, so every ordering that visits parents
+        # before their children and array elements in array order is possible.
+        frontier: List[Deque[JSONPathNode]] = _nondeterministic_runs(root)
 
-        while queue:
-            node, depth = queue.popleft()
+        while frontier:
+            idx = random.randrange(len(frontier))  # noqa: S311
+            run = frontier[idx]
+            node = run.popleft()
+            if not run:
+                del frontier[idx]
+
             yield node
-
-            # Randomly choose to visit child nodes now or queue them for later?
-            visit_children = random.choice([True, False])  # noqa: S311
-
-            for child in _nondeterministic_children(node):
-                if visit_children:
-                    yield child
-
-                    # Queue grandchildren by randomly interleaving them into the
-                    # queue while maintaining queue and grandchild order.
-                    grandchildren = [
-                        (child, depth + 2)
-                        for child in _nondeterministic_children(child)
-                    ]
-
-                    queue = deque(
-                        [
-                            next(n)
-                            for n in random.sample(
-                                [iter(queue)] * len(queue)
-                                + [iter(grandchildren)] * len(grandchildren),
-                                len(queue) + len(grandchildren),
-                            )
-                        ]
-                    )
-                else:
-                    queue.append((child, depth + 1))
+            frontier.extend(_nondeterministic_runs(node))
 
     def __str__(self) -> str:
         return f"..[{', '.join(str(itm) for itm in self.selectors)}]"
@@ -160,6 +139,23 @@ class JSONPathRecursiveDescentSegment(JSONPathSegment):
 
     def __hash__(self) -> int:
         return hash(("..", self.selectors, self.token))
+
+
+def _nondeterministic_runs(node: JSONPathNode) -> List[Deque[JSONPathNode]]:
+    """Return the container children of _node_ grouped by visit order constraints.
+
+    Array elements must be visited in array order, so they share a run. Object
+    members can be visited in any order, so each gets a run of its own.
+    """
+    children = deque(
+        child
+        for child in _nondeterministic_children(node)
+        if isinstance(child.value, (dict, list))
+    )
+
+    if isinstance(node.value, dict):
+        return [deque([child]) for child in children]
+    return [children] if children else []
 
 
 def _nondeterministic_children(node: JSONPathNode) -> Iterable[JSONPathNode]:
